@@ -49,8 +49,9 @@ EDITS = {
     "startswith_strncmp": ("libyara/sizedstr.c", "  for (uint32_t i = 0; i < s2->length; i++)\n  {\n    if (s1->c_string[i] != s2->c_string[i])\n      return false;\n  }\n\n  return true;",
                            "  return strncmp(s1->c_string, s2->c_string, s2->length) == 0;", None),
     "contains_strstr": ("libyara/sizedstr.c", "  return memmem(s1->c_string, s1->length, s2->c_string, s2->length) != NULL;", "  return strstr(s1->c_string, s2->c_string) != NULL;", None),
-    "compare_memcmp_minlen": ("libyara/sizedstr.c", "  if (i == s1->length && i == s2->length)\n    return 0;\n  else if (i == s1->length)\n    return -1;\n  else if (i == s2->length)\n    return 1;\n  else if (s1->c_string[i] < s2->c_string[i])\n    return -1;\n  else\n    return 1;\n}\n\n////////////////////////////////////////////////////////////////////////////////\n// ss_icompare",
-                              "  if (i == s1->length || i == s2->length)\n    return 0;\n  else if (s1->c_string[i] < s2->c_string[i])\n    return -1;\n  else\n    return 1;\n}\n\n////////////////////////////////////////////////////////////////////////////////\n// ss_icompare", None),
+    "compare_memcmp_minlen": ("libyara/sizedstr.c", "  if (i == s1->length && i == s2->length)\n    return 0;\n  else if (i == s1->length)\n    return -1;\n  else if (i == s2->length)\n    return 1;\n  else if ((uint8_t) s1->c_string[i] < (uint8_t) s2->c_string[i])\n    return -1;\n  else\n    return 1;\n}\n\n////////////////////////////////////////////////////////////////////////////////\n// ss_icompare",
+                              "  if (i == s1->length || i == s2->length)\n    return 0;\n  else if ((uint8_t) s1->c_string[i] < (uint8_t) s2->c_string[i])\n    return -1;\n  else\n    return 1;\n}\n\n////////////////////////////////////////////////////////////////////////////////\n// ss_icompare", None),
+    "compare_signed_again": ("libyara/sizedstr.c", "  else if ((uint8_t) s1->c_string[i] < (uint8_t) s2->c_string[i])", "  else if (s1->c_string[i] < s2->c_string[i])", None),
     "icompare_strcasecmp": ("libyara/sizedstr.c", "  while (s1->length > i && s2->length > i &&\n         yr_lowercase[(uint8_t) s1->c_string[i]] ==\n             yr_lowercase[(uint8_t) s2->c_string[i]])\n  {\n    i++;\n  }\n",
                             "  if (strcasecmp(s1->c_string, s2->c_string) == 0) return 0;\n  while (s1->length > i && s2->length > i &&\n         yr_lowercase[(uint8_t) s1->c_string[i]] ==\n             yr_lowercase[(uint8_t) s2->c_string[i]])\n  {\n    i++;\n  }\n", None),
     "iendswith_signed_index": ("libyara/sizedstr.c", "    if (yr_lowercase[(uint8_t) s1->c_string[s1->length - s2->length + i]] !=\n        yr_lowercase[(uint8_t) s2->c_string[i]])",
